@@ -38,7 +38,9 @@ RULE = ('Configurations = (model RDM, n_channel - n_cond, n_part, (n_sim, use_sa
         '(de-duplicated by RDM vector, duplicates counted), each with every n_channel offset, the '
         'remaining dimensions advanced by a running mixed-radix counter; block B: the product '
         'of all dimensions on representative RDMs (see bounds); block C: every RDM vector over {0,1,2}^m '
-        '(embeddable or not) and the inputs outside the preconditions; block D: make_design for all '
+        '(embeddable or not) and the inputs outside the preconditions; block E: the RDM of EVERY '
+        'categorical model (one per set partition of the conditions into >= 2 categories, distance 0 '
+        'within / 1 between); block D: make_design for all '
         'n_cond<=6 x n_part<=5. For each configuration EVERY combination of menu answers (3 per '
         'numpy.random.uniform call of the library) is enumerated by prefix replay (states = nodes of '
         'the choice tree, transitions = its edges). One evaluation = one draw history, replayed with '
@@ -72,6 +74,8 @@ BOUNDS = {
                          '(full product, signal by running counter)',
               'block C': 'all RDM vectors over {0,1,2}^1 and {0,1,2}^3; fewer channels / signal covariance / '
                          'exact option off on the representatives',
+              'block E': 'categorical RDMs of all set partitions (>= 2 blocks) of 3, 4, 5 conditions = 4 + 14 + 51, '
+                         'x 3 n_channel offsets ((n_sim=2, fresh) for every 4th RDM when n_cond=5)',
               'make_design': 'n_cond 1..6 x n_part 1..5'},
     'thorough': {'grid (block A)': 'n_cond 2..5, d<=2: all 90 + 756 + 6642 + 59292 configurations = 6 + 55 + '
                                    '561 + 5671 distinct RDM vectors, each x 3 n_channel offsets x all draw histories',
@@ -86,6 +90,8 @@ BOUNDS = {
                             'x signal x noise_cov',
                  'block C': 'all RDM vectors over {0,1,2}^1, {0,1,2}^3, {0,1,2}^6; fewer channels / signal '
                             'covariance / exact option off on the representatives x design',
+                 'block E': 'categorical RDMs of all set partitions (>= 2 blocks) of 3..6 conditions = 4 + 14 + 51 '
+                            '+ 202, x 3 n_channel offsets',
                  'make_design': 'n_cond 1..6 x n_part 1..5'},
 }
 
@@ -126,6 +132,19 @@ def _grid_rdms(n_cond):
     return list(seen), n_cfg
 
 
+@functools.lru_cache(maxsize=None)
+def _categorical_rdms(n_cond):
+    """RDM vectors of ALL categorical models of n_cond conditions: one per set partition into
+    >= 2 categories, distance 0 within and 1 between categories (vertices of a regular simplex,
+    hence Euclidean-embeddable, but not on the 2-d grid for >= 4 categories)"""
+    out = []
+    for part in combi.set_partitions(n_cond):
+        if len(set(part)) < 2:
+            continue
+        out.append(tuple(float(part[a] != part[b]) for a, b in ref.pair_index(n_cond)))
+    return out
+
+
 def _digits(t):
     out = []
     for r in RADICES:
@@ -153,6 +172,11 @@ def shards(tier, seed):
         per = 6 if n_cond <= 4 else 16
         for lo in range(0, len(vecs), per):
             out.append({'block': 'A', 'n_cond': n_cond, 'lo': lo, 'hi': min(len(vecs), lo + per)})
+    # E: every categorical model RDM
+    for n_cond in ([3, 4, 5, 6] if big else [3, 4, 5]):
+        vecs = _categorical_rdms(n_cond)
+        for lo in range(0, len(vecs), 6):
+            out.append({'block': 'E', 'n_cond': n_cond, 'lo': lo, 'hi': min(len(vecs), lo + 6)})
     # B: product of all dimensions on representatives; one shard per (rep, off, n_part, design)
     for r in range(len(REPS[tier])):
         for off in OFFS:
@@ -193,6 +217,12 @@ def _shard_configs(shard, tier):
         for r in range(shard['lo'], shard['hi']):
             for k, off in enumerate(OFFS):
                 yield _cfg(vecs[r], off, t=_thin(r + 71 * k, r, every))
+    elif blk == 'E':
+        vecs = _categorical_rdms(shard['n_cond'])
+        every = 1 if shard['n_cond'] <= 4 else (4 if shard['n_cond'] == 5 else 8)
+        for r in range(shard['lo'], shard['hi']):
+            for k, off in enumerate(OFFS):
+                yield _cfg(vecs[r], off, t=_thin(r + 71 * k + 29, r, every))
     elif blk == 'B':
         v = ref.sq_dists(REPS[tier][shard['rep']])
         t = 7 * shard['rep'] + OFFS.index(shard['off']) + shard['n_part'] + DESIGNS.index(shard['design'])
@@ -447,7 +477,9 @@ def _evaluate(inp, choices, ctx, case, runs0=None):
         return          # already reported: no condition descriptor to compute the RDM by
     from rsatoolbox.data import Dataset
     from rsatoolbox.rdm import calc_rdm
-    sig1 = 'calc_rdm(make_dataset)|%s,n_channel%sn_cond' % (sc, '==' if cfg['off'] == 0 else '>')
+    # (the design form is in the case, not in the signature: one defect of the signal construction
+    # would otherwise be reported once per design form)
+    sig1 = 'calc_rdm(make_dataset)|exact,noise=0,n_channel%sn_cond' % ('==' if cfg['off'] == 0 else '>')
     pred = np.asarray(inp.model.predict(inp.theta), dtype=float)
     pos = {p: k for k, p in enumerate(ref.pair_index(n_cond))}
     for i, d in enumerate(runs0['ds']):
@@ -473,11 +505,28 @@ def _evaluate(inp, choices, ctx, case, runs0=None):
             dev = maxreldev(got[0], want)
             ctx.dev('rdm/n_channel%sn_cond' % ('==' if cfg['off'] == 0 else '>'), dev)
             if not allclose(got[0], want, TOL_RDM):
-                ctx.fail(sig1 + '|rdm-mismatch', case,
+                ctx.fail(sig1 + '|' + _mismatch_kind(got[0], want, n_cond), case,
                          'simulation %d: calc_rdm gives %s, signal * prediction = %s (max rel. dev %.3g)'
                          % (i, np.round(got[0], 6).tolist(), want.tolist(), dev))
             if i == 0:
                 ctx.outcome(tuple(np.round(want, 6).tolist()) + (len(got_calls),))
+
+
+def _mismatch_kind(got, want, n_cond):
+    """failure kind of an RDM mismatch (no data values): a common factor, the right values under a
+    relabelling of the conditions, or a different pattern of dissimilarities"""
+    ww = float(np.dot(want, want))
+    if ww > 0:
+        c = float(np.dot(got, want)) / ww
+        if abs(c - 1) > 1e-4 and allclose(got, c * want, 1e-5):
+            return 'rdm-scaled'
+    if n_cond <= 6:
+        pos = {p: k for k, p in enumerate(ref.pair_index(n_cond))}
+        for perm in itertools.permutations(range(n_cond)):
+            w = [want[pos[(min(perm[a], perm[b]), max(perm[a], perm[b]))]] for a, b in ref.pair_index(n_cond)]
+            if allclose(got, w, 1e-5):
+                return 'rdm-conditions-permuted'
+    return 'rdm-mismatch'
 
 
 def _same_scalar(got, want):
